@@ -217,6 +217,70 @@ theorem Cut.reassemble {p : Bytes} {off s : Nat} {reqs : List Req} (h : Cut p of
       subst this
       exact ⟨off + blockSize b.szx, by simp [reassemble.goR], by omega⟩
 
+/-- a request that ends the upload: unfragmented, or a block without the more flag -/
+def FinalReq (r : Req) : Prop := r.block1 = none ∨ ∃ b, r.block1 = some b ∧ b.more = false
+
+/-- once the final block is among the requests, the reference reassembly is the whole payload -/
+theorem Cut.reassemble_final {p : Bytes} {off s : Nat} {reqs : List Req} (h : Cut p off s reqs)
+    (hoff : off ≤ p.length) (hfin : ∃ r ∈ reqs, FinalReq r) :
+    reassemble.goR (p.take off) reqs = some p := by
+  induction h with
+  | nil off s => obtain ⟨r, hr, _⟩ := hfin; cases hr
+  | whole s => simp [reassemble.goR]
+  | @block off s b sz1 rest h1 h2 h3 h4 h5 h6 h7 ih =>
+    have hlen : (p.take off).length = off := by rw [List.length_take]; omega
+    have hnot : ¬ (b.more = true ∧ ((p.drop off).take (blockSize b.szx)).length ≠ blockSize b.szx) := by
+      rintro ⟨hm, hne⟩
+      apply hne
+      rw [List.length_take, List.length_drop]
+      have := h5.mp hm
+      omega
+    unfold reassemble.goR
+    simp only [show ¬ b.szx > 6 by omega, ↓reduceIte, hlen, h3, ne_eq, not_true_eq_false, hnot]
+    rw [take_append_slice]
+    by_cases hm : b.more = true
+    · have hlt := h5.mp hm
+      apply ih (by omega)
+      obtain ⟨r, hr, hf⟩ := hfin
+      rcases List.mem_cons.mp hr with rfl | hr
+      · rcases hf with hf | ⟨b', hb', hmf⟩
+        · cases hf
+        · simp only [Option.some.injEq] at hb'
+          subst hb'
+          rw [hm] at hmf; cases hmf
+      · exact ⟨r, hr, hf⟩
+    · have hrest : rest = [] := h6 (by simpa using hm)
+      subst hrest
+      have : ¬ (off + blockSize b.szx < p.length) := fun hc => hm (h5.mpr hc)
+      simp only [reassemble.goR]
+      rw [List.take_of_length_le (by omega)]
+
+/-- nothing follows the final request -/
+theorem Cut.final_last {p : Bytes} {off s : Nat} {reqs : List Req} (h : Cut p off s reqs) :
+    ∀ (pre : List Req) (r : Req) (post : List Req), reqs = pre ++ r :: post → FinalReq r → post = [] := by
+  induction h with
+  | nil off s => intro pre r post he; cases pre <;> cases he
+  | whole s =>
+    intro pre r post he _
+    cases pre with
+    | nil => simp only [List.nil_append, List.cons.injEq] at he; exact he.2.symm
+    | cons x pre => simp only [List.cons_append, List.cons.injEq] at he; cases pre <;> cases he.2
+  | @block off s b sz1 rest h1 h2 h3 h4 h5 h6 h7 ih =>
+    intro pre r post he hf
+    cases pre with
+    | nil =>
+      simp only [List.nil_append, List.cons.injEq] at he
+      obtain ⟨hr, hrest⟩ := he
+      subst hr
+      rcases hf with hf | ⟨b', hb', hm⟩
+      · cases hf
+      · simp only [Option.some.injEq] at hb'
+        subst hb'
+        rw [← hrest]; exact h6 hm
+    | cons x pre =>
+      simp only [List.cons_append, List.cons.injEq] at he
+      exact ih pre r post he.2 hf
+
 /-- every Block1 request of a cut: exponent bounded, carries exactly `payload[start, start+size)`,
 the more flag is set iff bytes remain behind the block -/
 theorem Cut.each {p : Bytes} {off s : Nat} {reqs : List Req} (h : Cut p off s reqs) :
